@@ -32,15 +32,16 @@ func init() {
 	register(&Property{
 		ID: "C14",
 		Explanation: "Decided: (R1) which blocking primitives are synchronously reachable from Tell (effect analysis over the call graph): the remoting send path's dial, handshake, retry sleep, writes and wait are a KNOWN FINDING (Tell blocks while the peer is unreachable, contrary to the documented contract); any other blocking primitive is a violation; " +
-			"(R2) every failing exit of the send loop is reported (C03.R6) and an encode failure aborts the loop with the error; (R3) once a non-zero frame length was read the reader never re-arms without consuming exactly that many bytes — paths that do not consume kill the connection actor; (R4) the retry limit is clamped to >= 0, the retry loop exits on it, a stopped system aborts; " +
-			"(R5) a failed write / closed connection clears the cached connection before the retry, and non-EOF read errors kill the connection actor without re-arming; (R6) an undecodable frame re-arms the reader. NOT decided: 'what it receives is a subsequence' under arbitrary cut points, duplicates after an ambiguous write error, recovery timing.",
+			"(R2) every failing exit of the send loop is reported (C03.R6) and an encode failure aborts the loop with the error; (R3) once a non-zero frame length was read the reader never re-arms without consuming exactly that many bytes — paths that do not consume kill the connection actor; (R4) the retry limit is clamped to >= 0, the retry loop exits on it, nothing reachable from a retry iteration writes the attempt counter, a stopped system aborts; " +
+			"(R5) a failed write / closed connection clears the cached connection before the retry, and non-EOF read errors kill the connection actor without re-arming; (R6) an undecodable frame re-arms the reader; (R7) because the clean-EOF exit leaves the old connection actor registered, the name under which a connection actor is spawned contains a per-socket component, so a re-dial to the same peer does not collide with it. NOT decided: 'what it receives is a subsequence' under arbitrary cut points, duplicates after an ambiguous write error, recovery timing.",
 		Rules: []Rule{
 			{ID: "C14.R1", Min: 5, Desc: "Tell effect analysis (blocking primitives)", Fn: c14TellBlocks},
 			{ID: "C14.R2", Min: 3, Desc: "failure reported; encode failure aborts", Fn: c14Reported},
 			{ID: "C14.R3", Min: 1, Desc: "frame consumption before re-arm", Fn: c14Consumption},
-			{ID: "C14.R4", Min: 3, Desc: "bounded retry", Fn: c14Retry},
+			{ID: "C14.R4", Min: 4, Desc: "bounded retry", Fn: c14Retry},
 			{ID: "C14.R5", Min: 3, Desc: "broken connection dropped", Fn: c14Dropped},
 			{ID: "C14.R6", Min: 1, Desc: "decode failure continues", Fn: c14DecodeContinues},
+			{ID: "C14.R7", Min: 1, Desc: "a re-dialled connection can be registered", Fn: c14ConnName},
 		},
 	})
 	register(&Property{
@@ -900,6 +901,38 @@ func c14Retry(p *Program, r *Report) {
 		inc = inc && calls
 	}
 	r.Check(okX && inc, "retry loop exits when the attempt counter reaches the limit", rm.Try.Pos(), "every iteration tests attempts >= limit (exit edge leaves the loop) and advances the counter through Next()")
+	// ... and nothing the retried function reaches writes the counter (a Reset inside the loop body makes it unbounded)
+	var counter *types.Var
+	for _, ifi := range ifsOf(rm.Try) {
+		if f, ok := condFact(ifi.Cond, true); ok && f.Y != nil && strip(f.Y) == ssa.Value(rm.Try.Params[1]) {
+			if fld, _ := p.loadOfField(f.X); fld != nil {
+				counter = fld
+			}
+		}
+	}
+	if counter == nil {
+		r.Unresolved("attempt counter compared with the limit in the retry helper")
+	} else {
+		writers := map[*ssa.Function]ssa.Instruction{}
+		for _, a := range p.fieldAccesses(map[*types.Var]bool{counter: true}) {
+			if a.Write && !a.Fresh {
+				writers[a.Fn] = a.In
+			}
+		}
+		body := p.closure([]*ssa.Function{rm.SendLoop}, cgOpts{MaxDepth: 8, SkipEdge: func(e *callgraph.Edge) bool { return p.isMailboxEnqueueDispatch(e) }})
+		bad := ""
+		var badPos token.Pos
+		for fn, in := range writers {
+			if body[fn] != nil {
+				bad = p.pathTo(body, fn)
+				badPos = in.Pos()
+			}
+		}
+		if bad == "" {
+			badPos = rm.SendLoop.Pos()
+		}
+		r.Check(bad == "", "the attempt counter is not written inside a retry iteration", badPos, fmt.Sprintf("%d functions write %s.%s; none is reachable from the retried send function %s", len(writers), ownerName(counter), counter.Name(), bad))
+	}
 	// stopped system aborts
 	sg := p.ig(rm.SendLoop)
 	okS := false
@@ -962,7 +995,9 @@ func c14Dropped(p *Program, r *Report) {
 		}
 	}
 	r.Check(ok, "write failure drops the cached connection", rm.SendLoop.Pos(), "on the write error edge every path stores nil into the mailbox's connection before returning (the retry dials a fresh connection)")
-	closedE, _ := callEdges(g, func(c *ssa.Call) bool { return c.Call.StaticCallee() != nil && c.Call.StaticCallee().Name() == "Closed" })
+	closedE, _ := callEdges(g, func(c *ssa.Call) bool {
+		return c.Call.StaticCallee() != nil && c.Call.StaticCallee().Name() == "Closed"
+	})
 	okC := len(closedE) > 0
 	for e := range closedE {
 		if !clear[e.to] && anyIn(g.Reach([]int{e.to}, clear, nil), g.Exits) {
@@ -1144,7 +1179,10 @@ func c15Routing(p *Program, r *Report) {
 		return
 	}
 	g := p.ig(find)
-	factory := nodesWhere(g, func(in ssa.Instruction) bool { c := callOf(in); return c != nil && p.isRemoteMailboxFactory(c.StaticCallee()) })
+	factory := nodesWhere(g, func(in ssa.Instruction) bool {
+		c := callOf(in)
+		return c != nil && p.isRemoteMailboxFactory(c.StaticCallee())
+	})
 	// edge: ref address != own address
 	diff := map[edge]bool{}
 	for _, ifi := range ifsOf(find) {
@@ -1216,4 +1254,118 @@ func constSliceLen(v ssa.Value) int64 {
 		}
 	}
 	return -1
+}
+
+// c14ConnName: the connection actor of an outbound connection is spawned under a name. The frame reader's clean-EOF exit
+// leaves the old connection actor registered (it neither re-arms nor kills), so a later re-dial to the same peer must not
+// reuse its name: the name has to contain a component that differs per socket (the local ephemeral address, a uuid, a
+// counter, a clock/random value). If the EOF exit killed the actor this would not be needed and the rule is vacuous.
+func c14ConnName(p *Program, r *Report) {
+	rm := remOrFail(p, r)
+	if rm == nil {
+		return
+	}
+	g, _, kill, eof := p.readerEvents(rm)
+	eofKills := len(eof) > 0
+	for e := range eof {
+		if anyIn(g.Reach([]int{e.to}, kill, nil), g.Exits) {
+			eofKills = false
+		}
+	}
+	n := 0
+	for _, fn := range p.Mod {
+		pk := fnPkg(fn)
+		if pk == nil || !strings.HasSuffix(pk.Path(), "/internal/remoting") {
+			continue
+		}
+		for _, b := range fn.Blocks {
+			for _, in := range b.Instrs {
+				c := callOf(in)
+				if c == nil || !c.IsInvoke() || c.Method.Name() != "ActorOf" || len(c.Args) < 1 {
+					continue
+				}
+				mi, ok := c.Args[0].(*ssa.MakeInterface)
+				if !ok || namedOf(mi.X.Type()) != rm.ConnT {
+					continue
+				}
+				n++
+				var nameArg ssa.Value
+				if len(c.Args) > 1 {
+					if elems, ok := varargElems(c.Args[1]); ok {
+						for _, e := range elems {
+							if oc, ok := strip(e).(*ssa.Call); ok && oc.Call.StaticCallee() != nil && strings.Contains(oc.Call.StaticCallee().Name(), "ActorName") && len(oc.Call.Args) == 1 {
+								nameArg = oc.Call.Args[0]
+							}
+						}
+					}
+				}
+				construct := "connection actor name in " + fnName(fn)
+				if nameArg == nil {
+					r.Check(true, construct, in.Pos(), "the connection actor is spawned without an explicit name: the system generates a fresh one")
+					continue
+				}
+				if eofKills {
+					r.Check(true, construct, in.Pos(), "the frame reader's clean-EOF exit kills the connection actor: a stale registration cannot block a re-dial")
+					continue
+				}
+				leaves := map[string]bool{}
+				seen := map[ssa.Value]bool{}
+				var walk func(v ssa.Value, d int)
+				walk = func(v ssa.Value, d int) {
+					if v == nil || seen[v] || d > 10 {
+						return
+					}
+					seen[v] = true
+					switch x := v.(type) {
+					case *ssa.BinOp:
+						walk(x.X, d+1)
+						walk(x.Y, d+1)
+					case *ssa.Phi:
+						for _, e := range x.Edges {
+							walk(e, d+1)
+						}
+					case *ssa.MakeInterface:
+						walk(x.X, d+1)
+					case *ssa.Convert:
+						walk(x.X, d+1)
+					case *ssa.ChangeType:
+						walk(x.X, d+1)
+					case *ssa.Extract:
+						walk(x.Tuple, d+1)
+					case *ssa.Call:
+						if x.Call.IsInvoke() {
+							leaves[x.Call.Method.Name()] = true
+							walk(x.Call.Value, d+1)
+						} else {
+							leaves[calleeQual(&x.Call)] = true
+						}
+						for _, a := range x.Call.Args {
+							if elems, ok := varargElems(a); ok {
+								for _, e := range elems {
+									walk(e, d+1)
+								}
+							} else {
+								walk(a, d+1)
+							}
+						}
+					}
+				}
+				walk(nameArg, 0)
+				unique := ""
+				var ls []string
+				for l := range leaves {
+					ls = append(ls, l)
+					ll := strings.ToLower(l)
+					if l == "LocalAddr" || strings.Contains(ll, "uuid") || strings.Contains(ll, "rand") || strings.HasPrefix(l, "time.Now") || strings.Contains(l, "atomic") || strings.HasSuffix(l, ".Add") {
+						unique = l
+					}
+				}
+				sort.Strings(ls)
+				r.Check(unique != "", construct, in.Pos(), fmt.Sprintf("the clean-EOF exit leaves the old connection actor registered; the name is built from %v and contains a per-socket component (%s), so a re-dial to the same peer gets a new name", ls, unique))
+			}
+		}
+	}
+	if n == 0 {
+		r.Unresolved("spawn site of the connection actor")
+	}
 }
